@@ -1459,7 +1459,6 @@ int safec_vsnprintf_s(out_fct_type out, const char *funcname, char *buffer,
             if (flags & FLAGS_LONG) {
 #ifndef SAFECLIB_DISABLE_WCHAR
                 size_t len;
-                errno_t err;
                 const wchar_t *lp = va_arg(va, wchar_t *);
                 if (!lp) {
                     char msg[80];
@@ -1490,19 +1489,18 @@ int safec_vsnprintf_s(out_fct_type out, const char *funcname, char *buffer,
                     invoke_safe_str_constraint_handler(msg, buffer, 1);
                     return -1;
                 }
-                p[0] = '\0';
-                len = 0;
-                err = l ? wcstombs_s(&len, p, l + 1, lp, l) : EOK;
-                l = (unsigned int)len;
-                if (err != EOK) {
+                /* the violation is reported here, once */
+                len = l ? wcstombs(p, lp, l) : 0;
+                if (len == (size_t)-1) {
                     char msg[80];
                     snprintf(msg, sizeof msg,
-                             "%s: wcstombs_s for %%ls arg failed", funcname);
-                    invoke_safe_str_constraint_handler(msg, buffer,
-                                                       RCNEGATE(err));
+                             "%s: wcstombs for %%ls arg failed", funcname);
+                    invoke_safe_str_constraint_handler(msg, buffer, EILSEQ);
                     free(p);
-                    return -(err);
+                    return -(EILSEQ);
                 }
+                p[len] = '\0';
+                l = (unsigned int)len;
 #else
                 {
                     char msg[80];
